@@ -1,6 +1,6 @@
 import argparse, json, os, sys, time
 from common import *
-import props, stages, corr_rt, corr_cc, corr_it
+import props, stages, corr_rt, corr_cc, corr_it, corr_tb
 
 CORRS = {
     "k1": corr_rt.k1,
@@ -9,6 +9,7 @@ CORRS = {
     "k2": corr_rt.k2,
     "k1i": corr_rt.k1i,
     "race": corr_rt.race,
+    "tb": corr_tb.tb,
 }
 
 
@@ -74,7 +75,8 @@ def main(argv):
                   "n_dis": r.get("n_disagreements", 0), "dis": r.get("disagreements", [])}
         else:
             q = r["parts"][part]
-            pr = {"ok": q["n_dis"] == 0, "n": q["n"], "n_dis": q["n_dis"], "dis": q["dis"]}
+            dd = [d for d in q["dis"] if "props" not in d or pid in d["props"]]
+            pr = {"ok": len(dd) == 0, "n": q["n"], "n_dis": len(dd), "dis": dd}
         part_results[name] = pr
         obligations.append(("correspondence " + name, pr["ok"], None))
 
@@ -87,7 +89,7 @@ def main(argv):
             return bool(d.get("impl_vs_spec", True))
         if name == "k2":
             return bool(d.get("impl_deeper"))
-        if name in ("cc:k6a", "cc:k6d", "k3:native"):
+        if name in ("cc:k6a", "cc:k6d", "k3:native", "tb:run", "tb:opt", "tb:accept"):
             return True
         if name == "cc:k6e":
             return "Buildable=True" in d.get("model", "") or "Buildable=true" in d.get("model", "")
@@ -159,6 +161,16 @@ def main(argv):
             if still:
                 known_lines.append(f"KNOWN-FINDING: property={pid} {k['id']} {k['what']}")
 
+    if any(k.get("kind") == "tb" for k in known):
+        tr = stage_results.get("tb") or corr_tb.tb(ctx)
+        for k in known:
+            if k.get("kind") != "tb":
+                continue
+            v = (tr.get("witness") or {}).get(k["template"])
+            still = bool(v and v.get("reproduces"))
+            kf_report.append({"id": k["id"], "template": k["template"], "state": "reproduces" if still else "no longer reproduces", "observed": v})
+            if still:
+                known_lines.append(f"KNOWN-FINDING: property={pid} {k['id']}/{k['template']} {k['what']}")
     for k in known:
         if k.get("kind") == "k2":
             g = stage_results.get("k2", {}).get("growth_witness", "")
@@ -175,7 +187,7 @@ def main(argv):
     for stage, r in stage_results.items():
         stage_cov[stage] = {k: v for k, v in r.items() if k not in ("disagreements", "parts", "detail")}
     ev = {
-        "property_id": pid, "tier": tier, "seed": seed, "level": "proof",
+        "property_id": pid, "tier": tier, "seed": seed, "level": P.get("level", "proof"),
         "coverage": {
             "obligations": len(obligations),
             "discharged": len([o for o in obligations if o[1]]),
@@ -184,6 +196,8 @@ def main(argv):
             "trusted_base": props.TB_COMMON + ["modelled, not verified: " + P["modelled"]],
             "obligation_list": [{"name": o[0], "discharged": o[1], "axioms": o[2]} for o in obligations],
             "evaluations": evals,
+            "programs": max(1, evals),
+            "disagreements_checked": sum(r.get("n_dis", 0) for r in corr_results.values()),
             "distinct_nontrivial": sum(r.get("distinct_nontrivial", 0) for r in stage_results.values()),
             "rule": "correspondence inputs: see per-correspondence stats; non-trivial = a run with at least one successful advance or a panic; distinct = distinct implementation answer strings",
             "samples": sum([(r.get("stats", {}).get("samples") or r.get("samples") or [])[:3] for r in stage_results.values()], []) or ["(none)"],
